@@ -97,6 +97,14 @@ def exporter_cases(tier, rng):
         ls += ["X qr %s %d" % (small, 10 + q) for q in range(n2)] + ["X wb", "X rot 3 0"]
         ls += ["X qr %s %d" % (small, 20 + q) for q in range(n3)] + ["X wb", "X end"]
         cases.append({"id": "y%d" % i, "script": ls, "persistent": False, "small": (n2, n3), "meta": {"kind": "exporter/after-recovery"}})
+    # a write that is cut short ONCE (the operating system accepts only part of the buffer) and then works again: the loss must be
+    # reported (Writer<int>::write throws when ret != size); a writer that silently carries on leaves a corrupted output of the right length
+    for i in range(9 if tier == "quick" else 150):
+        k = 1 + i % 6
+        name = (bytes([97 + i % 20]) * 1500).hex()
+        ls = ["CASE x", "SHORTONCE %d %d" % (k, rng.choice([1, 100, 1024, 2047])), "X new fd none 1 10000"]
+        ls += ["X qr %s %d" % (name, q) for q in range(6)] + ["X wb", "X counts", "X rot 2 0", "X counts", "X rot 3 0", "X wb", "X end"]
+        cases.append({"id": "s%d" % i, "script": ls, "persistent": False, "short": True, "meta": {"kind": "exporter/short-write-once"}})
     return cases
 
 def count_qrs(data):
@@ -104,6 +112,30 @@ def count_qrs(data):
     return sum(len(v[1]) for b in t[1][2][1] for kk, v in b[1] if kk[1] == 3)
 
 def check_exporter_case(c, il, files):
+    if c.get("short"):
+        res = il[2:]                      # after CASE, SHORTONCE: 0 new, 1-6 qr, 7 wb, 8 counts, 9 rot 2, 10 counts, 11 rot 3, 12 wb, 13 end
+        if len(res) < 14: return "driver output incomplete: %r" % res[-3:], None
+        first = next((j for j in (1, 2, 3, 4, 5, 6, 7, 9) if res[j].startswith("throw")), None)
+        if first is None:
+            # nothing was reported up to and including the rotate_output that closed fd1: it must have lost nothing
+            try: got = count_qrs(files.get("fd1", b""))
+            except Exception as e:
+                return ("a write to fd1 was cut short (the operating system accepted only part of the buffer) and no call up to the rotate_output that closed fd1 threw; "
+                        "the closed output (%d bytes) is not a complete document: %s" % (len(files.get("fd1", b"")), e)), None
+            if got != 6: return "a write to fd1 was cut short, nothing was reported, and the closed output holds %d of 6 records" % got, None
+            return None, None
+        nxt = 9 if first < 9 else 11      # the next rotate_output after the report goes to a healthy destination and must succeed
+        if res[nxt].startswith("throw"): return "after a single short write had been reported, the next rotate_output to a healthy destination throws: %s" % res[nxt], None
+        if res[12].startswith("throw"): return "after the recovery, write_block() throws: %s" % res[12], None
+        retained = int(res[8 if first < 9 else 10].split()[1]) if res[8 if first < 9 else 10].startswith("c ") else 0
+        got = 0
+        for fn in ("fd2", "fd3"):
+            d = files.get(fn, b"")
+            if not d: continue
+            try: got += count_qrs(d)
+            except Exception as e: return "output %s, written after the failure had been reported, is not a complete document (%d bytes): %s" % (fn, len(d), e), None
+        if got < retained: return "the outputs written after the recovery hold %d records, %d were retained at the time of the exception" % (got, retained), None
+        return None, None
     if "small" in c:
         res = il[2:]          # after CASE, FAILONCE
         if not any(r.startswith("throw") for r in res[:7]): return "the rejected write was not reported by any call", None
